@@ -217,6 +217,15 @@ def e2e_case(item):
         # space for the assembler and must not shift the numbering --lines refers to
         lines, b0, b1 = build_file([pro, ["\f", " \t "]], [], body, [], [epi])
         lines_opt = arg.replace("L", str(b0)).replace("M", str(b1))
+    elif kind in ("markeddeep", "linesdeep"):
+        # the kernel 1500 lines into the file (line numbers beyond 1000)
+        deep = [c + " deep %d" % k for k in range(1500)]
+        if kind == "markeddeep":
+            lines, b0, b1 = build_file([pro, deep], marker(isa, "start", arg), body,
+                                       marker(isa, "end", arg), [epi])
+        else:
+            lines, b0, b1 = build_file([pro, deep], [], body, [], [epi])
+            lines_opt = arg.replace("L", str(b0)).replace("M", str(b1))
     elif kind == "only":
         lines, b0, b1 = list(body), 1, len(body)
     elif kind == "noise":
@@ -312,7 +321,7 @@ def run(ctx):
                 vs = [("marked", "one"), ("marked", "multi"), ("marked", "comment"),
                       ("lines", "L-M"), ("lines", "L:M"), ("lines", "L,J-M"), ("lines", "K-M,L-J"),
                       ("lines", "L-K,K-M"), ("lines", "M,L-M"), ("linesff", "L-M"),
-                      ("only", None)]
+                      ("markeddeep", "one"), ("linesdeep", "L-M"), ("only", None)]
                 for what in ("comment", "label", "directive", "blank", "formfeed"):
                     for posn in range(len(BODIES[isa][bi]) + 1):
                         vs.append(("noise", (what, posn)))
